@@ -45,7 +45,7 @@ package kmipclient
 //@   ensures i >= len(c.middlewares) ==> cmwCalls == old(cmwCalls) && rtCalls == old(rtCalls)+1 && rtCtx == ctx && rtMsg == req && r0 == rtRet && r1 == rtErr
 //@   ensures i == old(i) && c == old(c)
 //@   ensures r1 == nil ==> r0 != nil
-//@   ghostmod cmwCalls, cmwSelf, cmwNext, cmwCtx, cmwMsg, cmwRet, cmwErr, rtCalls, rtCtx, rtMsg, rtRet, rtErr, transmissions, dials, lastErrRetryable
+//@   ghostmod cmwCalls, cmwSelf, cmwNext, cmwCtx, cmwMsg, cmwRet, cmwErr, rtCalls, rtCtx, rtMsg, rtRet, rtErr, transmissions, dials, lastErrRetryable, connBroken
 //@   modifies c.conn
 
 // Roundtrip enters the chain at stage 0 with its own arguments.
@@ -54,7 +54,7 @@ package kmipclient
 //@   ensures 0 < len(c.middlewares) ==> cmwCalls == old(cmwCalls)+1 && cmwSelf == c.middlewares[0] && cmwCtx == ctx && cmwMsg == msg && r0 == cmwRet && r1 == cmwErr
 //@   ensures len(c.middlewares) == 0 ==> rtCalls == old(rtCalls)+1 && cmwCalls == old(cmwCalls) && rtCtx == ctx && rtMsg == msg && r0 == rtRet && r1 == rtErr
 //@   ensures r1 == nil ==> r0 != nil
-//@   ghostmod cmwCalls, cmwSelf, cmwNext, cmwCtx, cmwMsg, cmwRet, cmwErr, rtCalls, rtCtx, rtMsg, rtRet, rtErr, transmissions, dials, lastErrRetryable
+//@   ghostmod cmwCalls, cmwSelf, cmwNext, cmwCtx, cmwMsg, cmwRet, cmwErr, rtCalls, rtCtx, rtMsg, rtRet, rtErr, transmissions, dials, lastErrRetryable, connBroken
 //@   ghost sentVersion = old(msg.Header.ProtocolVersion)
 //@   modifies c.conn
 
@@ -86,7 +86,7 @@ package kmipclient
 //@   ensures old(c.version) == nil && ite(len(c.middlewares) == 0, rtErr, cmwErr) == nil && discovered(lastResp(c)) && (exists k int :: 0 <= k && k < len(discoverPl(lastResp(c)).ProtocolVersion) && contains(c.supportedVersions, discoverPl(lastResp(c)).ProtocolVersion[k])) ==> r0 == nil
 //@   ensures old(c.version) == nil && (ite(len(c.middlewares) == 0, rtErr, cmwErr) == nil) && noDiscovery(lastResp(c)) ==> ite(contains(c.supportedVersions, kmip.V1_0), r0 == nil && *c.version == kmip.V1_0, r0 != nil)
 //@   modifies c.version, c.conn
-//@   ghostmod cmwCalls, cmwSelf, cmwNext, cmwCtx, cmwMsg, cmwRet, cmwErr, rtCalls, rtCtx, rtMsg, rtRet, rtErr, transmissions, dials, lastErrRetryable
+//@   ghostmod cmwCalls, cmwSelf, cmwNext, cmwCtx, cmwMsg, cmwRet, cmwErr, rtCalls, rtCtx, rtMsg, rtRet, rtErr, transmissions, dials, lastErrRetryable, connBroken
 //@   loop 0 invariant -1 <= rangeindex && rangeindex < len(pl.ProtocolVersion)
 //@   loop 0 invariant best != nil ==> contains(c.supportedVersions, *best) && contains(pl.ProtocolVersion, *best)
 //@   loop 0 invariant forall k int :: 0 <= k && k <= rangeindex && contains(c.supportedVersions, pl.ProtocolVersion[k]) ==> best != nil && verLE(pl.ProtocolVersion[k], *best)
@@ -106,7 +106,7 @@ package kmipclient
 //@   ensures r1 == nil ==> len(r0) == len(payloads) && lastResp(c) != nil && int(lastResp(c).Header.BatchCount) == len(payloads) && r0 == lastResp(c).BatchItem
 //@   ensures ite(len(c.middlewares) == 0, rtErr, cmwErr) != nil ==> r1 != nil
 //@   ensures transportErr(c) == nil && counted(lastResp(c), len(payloads)) ==> r1 == nil
-//@   ghostmod cmwCalls, cmwSelf, cmwNext, cmwCtx, cmwMsg, cmwRet, cmwErr, rtCalls, rtCtx, rtMsg, rtRet, rtErr, sentVersion, transmissions, dials, lastErrRetryable
+//@   ghostmod cmwCalls, cmwSelf, cmwNext, cmwCtx, cmwMsg, cmwRet, cmwErr, rtCalls, rtCtx, rtMsg, rtRet, rtErr, sentVersion, transmissions, dials, lastErrRetryable, connBroken
 //@   loop 0 invariant -1 <= rangeindex && rangeindex < len(opts) && msg.Header.ProtocolVersion == *c.version && len(msg.BatchItem) == len(payloads)
 
 //@ func (*Client).Batch
@@ -120,7 +120,7 @@ package kmipclient
 //@   ensures transportErr(c) == nil && counted(lastResp(c), 1) && lastResp(c).BatchItem[0].ResultStatus != kmip.ResultStatusSuccess ==> r1 != nil
 //@   ensures transportErr(c) == nil && counted(lastResp(c), 1) && lastResp(c).BatchItem[0].ResultStatus != kmip.ResultStatusSuccess ==> r1 == itemErrRet
 //@   ensures transportErr(c) == nil && counted(lastResp(c), 1) && lastResp(c).BatchItem[0].ResultStatus != kmip.ResultStatusSuccess ==> itemErrStatus == lastResp(c).BatchItem[0].ResultStatus && itemErrReason == lastResp(c).BatchItem[0].ResultReason && itemErrMsg == lastResp(c).BatchItem[0].ResultMessage
-//@   ghostmod cmwCalls, cmwSelf, cmwNext, cmwCtx, cmwMsg, cmwRet, cmwErr, rtCalls, rtCtx, rtMsg, rtRet, rtErr, transmissions, dials, lastErrRetryable, itemErrRet, itemErrStatus, itemErrReason, itemErrMsg
+//@   ghostmod cmwCalls, cmwSelf, cmwNext, cmwCtx, cmwMsg, cmwRet, cmwErr, rtCalls, rtCtx, rtMsg, rtRet, rtErr, transmissions, dials, lastErrRetryable, connBroken, itemErrRet, itemErrStatus, itemErrReason, itemErrMsg
 
 // a batch result is unwrapped to an error exactly when one of its items failed
 //@ func (BatchResult).Unwrap
@@ -137,7 +137,7 @@ package kmipclient
 // every instantiation Executor[Req, Resp]: a nil error comes with a payload of the response type
 //@ func (Executor[Req, Resp]).ExecContext
 //@   requires clientOK(ex.client) && ex.client.version != nil
-//@   ghostmod cmwCalls, cmwSelf, cmwNext, cmwCtx, cmwMsg, cmwRet, cmwErr, rtCalls, rtCtx, rtMsg, rtRet, rtErr, transmissions, dials, lastErrRetryable, itemErrRet, itemErrStatus, itemErrReason, itemErrMsg
+//@   ghostmod cmwCalls, cmwSelf, cmwNext, cmwCtx, cmwMsg, cmwRet, cmwErr, rtCalls, rtCtx, rtMsg, rtRet, rtErr, transmissions, dials, lastErrRetryable, connBroken, itemErrRet, itemErrStatus, itemErrReason, itemErrMsg
 
 // ---------------------------------------------------------------------------
 // connection faults, sequential clauses (C11)
@@ -147,12 +147,19 @@ package kmipclient
 //@ ghostvar dials int
 //@ ghostvar lastErrRetryable bool
 
+// connBroken: the current connection has been ended by a fault (its reader or writer met an error, or a
+// request was abandoned half way), as opposed to being closed by Close. A broken connection fails every
+// exchange; whether an exchange breaks a connection is up to the network (any outcome).
+//@ ghostvar connBroken bool
+
 // one exchange over the current connection (select/channels: any outcome)
 //@ func (*conn).roundtrip
 //@   trusted
 //@   requires c != nil && lockHeld == 1
 //@   ensures r1 == nil ==> r0 != nil
+//@   ensures old(connBroken) ==> r1 != nil && connBroken
 //@   pure
+//@   ghostmod connBroken
 //@   ghost transmissions = old(transmissions) + 1
 //@   ghost lastErrRetryable = erris(r1, io.EOF) || erris(r1, io.ErrClosedPipe)
 
@@ -160,11 +167,13 @@ package kmipclient
 //@   trusted
 //@   requires c != nil
 //@   pure
+//@   ghost connBroken = false
 
 //@ func newConn
 //@   trusted
 //@   ensures r0 != nil && isnew(r0)
 //@   pure
+//@   ghost connBroken = false
 
 //@ functype kmipclient.DialerFunc
 //@   params ctx
@@ -172,10 +181,11 @@ package kmipclient
 //@   pure
 
 //@ func (*Client).reconnect
-//@   requires c != nil && c.dialer != nil && (c.conn == nil || lastErrRetryable)
-//@   ensures r0 == nil ==> c.conn != nil
+//@   requires c != nil && c.dialer != nil && (c.conn == nil || lastErrRetryable || connBroken)
+//@   ensures r0 == nil ==> c.conn != nil && !connBroken
 //@   ensures r0 != nil ==> c.conn == nil
 //@   modifies c.conn
+//@   ghostmod connBroken
 //@   ghost dials = old(dials) + 1
 
 //@ func (*Client).doRountrip
@@ -184,8 +194,9 @@ package kmipclient
 //@   ensures dials-old(dials) >= 0 && dials-old(dials) <= 4
 //@   ensures lockHeld == 0
 //@   ensures r1 == nil ==> r0 != nil
+//@   ensures old(c.conn) != nil && old(connBroken) ==> dials-old(dials) >= 1
 //@   modifies c.conn
-//@   ghostmod transmissions, dials, lastErrRetryable
+//@   ghostmod transmissions, dials, lastErrRetryable, connBroken
 //@   ghost rtCalls = old(rtCalls) + 1
 //@   ghost rtCtx = ctx
 //@   ghost rtMsg = msg
@@ -193,7 +204,7 @@ package kmipclient
 //@   ghost rtErr = r1
 //@   loop 0 invariant 0 <= retry && retry <= 3 && lockHeld == 1 && c.conn != nil
 //@   loop 0 invariant transmissions-old(transmissions) == 3-retry && dials-old(dials) >= 0 && dials-old(dials) <= 4-retry
-//@   loop 0 ghostmod transmissions, dials, lastErrRetryable
+//@   loop 0 ghostmod transmissions, dials, lastErrRetryable, connBroken
 
 //@ func (*Client).Close
 //@   requires c != nil
